@@ -12,7 +12,7 @@ Proof. split; reflexivity. Qed.
    identifier, arrives from the peer it was sent to, and nothing was delivered to it before. *)
 Theorem C04_match : forall t id from pl t' i p,
   step t (Deliver id from pl) = (t', Some (i, p)) ->
-  i = id /\ p = pl /\ exists en, lookup t id = Some en /\ e_peer en = from /\ e_tx en = true.
+  i = id /\ p = pl /\ exists en, lookup t id = Some en /\ e_peer en = from /\ e_tx en = true /\ e_rx en = true.
 Proof. exact deliver_match. Qed.
 
 (* Replies with an unknown identifier (never sent, already finished = late), from another
